@@ -201,6 +201,7 @@ fn strategy() -> impl Strategy<Value = (RuleSpec, Vec<gen::DocRecipe>, u8)> {
             2 => gen::rule_focus(true),
             1 => gen::rule(gen::RuleOpts::default()),
             1 => merge_heavy_rule(),
+            1 => big_count_rule(),
         ],
         prop::collection::vec(gen::doc_recipe(), 10),
         prop_oneof![3 => Just(15u8), 1 => 0u8..16],
@@ -235,6 +236,32 @@ fn merge_heavy_rule() -> BoxedStrategy<RuleSpec> {
                 }
             }
             RuleSpec { idents: vec![("A".to_string(), Body::Seq(blocks))], cond: CondSpec::Ident("A".to_string()) }
+        })
+        .boxed()
+}
+
+/// A quantified list around the 64-member boundary of the solver's hit counting: state leaking
+/// from one match to the next would show as order-dependent verdicts.
+fn big_count_rule() -> BoxedStrategy<RuleSpec> {
+    use crate::spec::*;
+    (prop::sample::select(vec![8usize, 63, 64, 65, 70]), 0u8..4, any::<bool>())
+        .prop_map(|(len, quant, ci)| {
+            let members: Vec<ValSpec> = (0..len)
+                .map(|i| ValSpec::Str(format!("{}*n{:03}x*", if ci { "i" } else { "" }, i)))
+                .collect();
+            let modifier = match quant {
+                0 => KMod::All,
+                1 => KMod::Of(2),
+                2 => KMod::Of(3),
+                _ => KMod::Of(len as u64),
+            };
+            RuleSpec {
+                idents: vec![(
+                    "A".to_string(),
+                    Body::Map(Block(vec![Entry { key: KeySpec { modifier, field: "f1".into() }, val: ValSpec::List(members) }])),
+                )],
+                cond: CondSpec::Ident("A".to_string()),
+            }
         })
         .boxed()
 }
